@@ -37,14 +37,20 @@ def run(rep, tier, seed):
     rep.assume("floating-point cancellation (e.g. 1.5e-7 < |theta| < 1e-2 in double) is NOT decided: proofs are over the reals",
                "singular set of each Jacobian (denominators that vanish, e.g. theta = pi for SO3::log) is excluded by the path's SAFE side conditions")
     rep.assume("Bundles: every Bundle operation / Jacobian is the block-diagonal of its elements' (proved per layout under C11), so the element-group results proved here carry over")
+    items = []
     for g in groups:
         if g in errs:
             rep.fail("C05/%s/instantiates" % g, "BUILD", "g++", {"compiler_output": errs[g].output[-3000:]},
                      {"failing_input_reproduced": False})
             continue
-        check_primitives(rep, g, tier, seed)
+        for fn in ("inverse", "compose", "act", "exp"):
+            items.append((g, lambda r, g_, t_, s_, fn=fn: check_primitives(r, g_, t_, s_, only=fn)))
+        nsh = 8 if g in ("SE3", "SE_2_3", "SGal3") else 1      # log of the large groups: one worker per path (mod 8)
+        for i in range(nsh):
+            items.append((g, lambda r, g_, t_, s_, i=i, nsh=nsh: check_primitives(r, g_, t_, s_, only="log", shard=(i, nsh))))
         if g in DERIVED_QUICK or (tier != "quick" and g in DERIVED_THOROUGH):
-            check_derived(rep, g, tier, seed)
+            items.append((g, check_derived))
+    rep.parallel(items, lambda r, it: it[1](r, it[0], tier, seed))
     rep.not_run.append("chain-rule Jacobians of rplus/lplus/rminus/lminus/between by direct differentiation for SE_2_3, SGal3 (SE3: thorough tier) "
                        "(two symbolic elements through log: too slow); the generic layer is the same code for every group (C04 rule) and is "
                        "differentiated here for SO2, SE2, SO3, Rn (quick) and SE3 (thorough); rplus/rminus additionally through dual numbers (C12)")
@@ -94,32 +100,34 @@ def _paths(rep, g, scn, decl, seed, label):
     return out
 
 
-def check_primitives(rep, g, tier, seed):
+def check_primitives(rep, g, tier, seed, only=None, shard=(0, 1)):
     fam = C.family(g)
     bf, tf = C.base_file(g), C.tangent_base_file(g)
     for fn in ("compose", "inverse", "act", "log"):
         C.check_anchor(rep, "%sBase::%s" % (fam, fn), bf)
     C.check_anchor(rep, "%sTangentBase::exp" % fam, tf)
-    HARNESS.prefetch(g, ["inverse", "compose", "act", "exp", "log"])
+    HARNESS.prefetch(g, ["inverse", "compose", "act", "exp", "log"] if only is None else [only])
 
     first = True
     rep.progress("%s obligations start" % g)
-    for c in _paths(rep, g, "inverse", [("x", "G")], seed, "inverse"):
+    for c in (_paths(rep, g, "inverse", [("x", "G")], seed, "inverse") if only in (None, "inverse") else []):
         if first:
             c.lift_is_sound("spec", "x")
             first = False
         taylor.with_taylor(c, TAU, lambda c=c: c.deriv_group("J", c.vec("out"), c.out("J"), "x"))
-    for c in _paths(rep, g, "compose", [("x", "G"), ("y", "G")], seed, "compose"):
+    for c in (_paths(rep, g, "compose", [("x", "G"), ("y", "G")], seed, "compose") if only in (None, "compose") else []):
         taylor.with_taylor(c, TAU, lambda c=c: (c.deriv_group("Ja", c.vec("out"), c.out("Ja"), "x"),
                                                  c.deriv_group("Jb", c.vec("out"), c.out("Jb"), "y")))
-    for c in _paths(rep, g, "act", [("x", "G"), ("p", "P")], seed, "act"):
+    for c in (_paths(rep, g, "act", [("x", "G"), ("p", "P")], seed, "act") if only in (None, "act") else []):
         taylor.with_taylor(c, TAU, lambda c=c: (c.deriv_vec("Jm", c.vec("out"), c.out("Jm"), "x"),
                                                  c.deriv_vec("Jp", c.vec("out"), c.out("Jp"), "p")))
-    for c in _paths(rep, g, "exp", [("t", "T")], seed, "exp"):
+    for c in (_paths(rep, g, "exp", [("t", "T")], seed, "exp") if only in (None, "exp") else []):
         rep.progress("%s exp[%s] obligations" % (g, c.path.script))
         taylor.with_taylor(c, TAU, lambda c=c: c.deriv_group("J", c.vec("out"), c.out("J"), "t"))
         fpcheck.compare(rep, c, ["out", "J"], TAU, "exp")
-    for c in _paths(rep, g, "log", [("x", "G")], seed, "log"):
+    for k, c in enumerate(_paths(rep, g, "log", [("x", "G")], seed, "log") if only in (None, "log") else []):
+        if k % shard[1] != shard[0]:
+            continue
         rep.progress("%s log[%s] obligations" % (g, c.path.script))
         M = c.inverse_stub_of("J")
         if M is not None:
